@@ -15,7 +15,9 @@ for n in $NAMES; do
     fi
     res=$("$VER/tools/seedcheck.sh" "$n" "$id" 2>&1)
     sigs=$(printf '%s\n' "$res" | grep -E "violation in part" | sed -E 's/.*violation in part ([a-z_0-9]+): sig=([^ ]+).*/\1:\2/' | sort -u | tr '\n' ' ')
-    if printf '%s\n' "$res" | grep -q "^VIOLATION"; then verdict="caught"; else verdict="MISSED"; fi
+    if printf '%s\n' "$res" | grep -q "^VIOLATION"; then verdict="caught";
+    elif printf '%s\n' "$res" | grep -q "^OK"; then verdict="MISSED";
+    else verdict="NOT-RUN"; fi   # scratch setup or build failed (e.g. a concurrent `git worktree prune`): run it again
     echo "| $n | $verdict | $sigs |" >> "$TMP"
     python3 - "$VER/seeded/$n/meta.json" "$verdict" "$sigs" <<'PY'
 import json,sys
